@@ -43,30 +43,30 @@ def run(ctx, report: Report) -> None:
     # ---- R3 ----------------------------------------------------------------------------------------------
     r3 = report.rule('C05-R3', 'HTML-only context is restored per activation; the gate is document-level', floor=22)
     from .sem import context_restore_table
+    n_before_ctx = len(r3.findings)
     context_restore_table(ctx, r3)
+    table_clean = len(r3.findings) == n_before_ctx
     from .c04 import swap_restore
     attrs, problems = swap_restore(mmod, ms)
     r3.instance({'attributes_swapped': sorted(attrs), 'problems': [f'{a}: {st}' for a, st, _, _ in problems]}, key='swap')
-    r3.obligation(not problems and attrs >= {'namespaces', 'iframe_restrict'})
-    seen = set()
-    for a, st, kind, line in problems:
-        if (a, st) not in seen:
-            seen.add((a, st))
-            r3.violation(f'match_selectors self.{a} {st}', mmod.where(ms),
-                         f'match_selectors: self.{a} is {st.replace("-", " ")}: the caller\'s namespace map / iframe restriction is not '
-                         f'restored after an HTML-only list, so the remaining alternatives (and elements) are evaluated in the wrong context')
-    if not attrs >= {'namespaces', 'iframe_restrict'}:
-        r3.violation('match_selectors swap missing', mmod.where(ms),
-                     f'match_selectors no longer swaps namespaces and iframe_restrict in its own activation (found {sorted(attrs)})')
-    # other CSSMatch methods must not write matcher attributes at all
-    for q, fn in mmod.functions.items():
-        if q.startswith('CSSMatch.') and q.count('.') == 1 and q not in ('CSSMatch.__init__', 'CSSMatch.match_selectors'):
-            w = [unparse(t) for n in walk_no_nested(fn) if isinstance(n, ast.Assign) for t in n.targets
-                 if isinstance(t, ast.Attribute) and isinstance(t.value, ast.Name) and t.value.id == 'self']
-            if w:
-                r3.instance({'method': q, 'writes': w}, key=q)
-                r3.violation(f'css_match.{q} writes {w[0]}', mmod.where(fn),
-                             f'{q} writes matcher state ({w}) outside __init__/the activation-local swap of match_selectors')
+    structural_ok = not problems and attrs >= {'namespaces', 'iframe_restrict'}
+    r3.obligation(structural_ok or table_clean)
+    if not structural_ok and table_clean:
+        # written with helper methods / a context object: the table above (plain and nested HTML-only lists, every way out of the chain
+        # of checks) shows that the caller's namespace map and iframe policy are back after the call
+        r3.note('the save / restore of namespaces and iframe_restrict in match_selectors is not recognised structurally on this tree; decided by '
+                'the context table')
+    elif not structural_ok:
+        seen = set()
+        for a, st, kind, line in problems:
+            if (a, st) not in seen:
+                seen.add((a, st))
+                r3.violation(f'match_selectors self.{a} {st}', mmod.where(ms),
+                             f'match_selectors: self.{a} is {st.replace("-", " ")}: the caller\'s namespace map / iframe restriction is not '
+                             f'restored after an HTML-only list, so the remaining alternatives (and elements) are evaluated in the wrong context')
+        if not attrs >= {'namespaces', 'iframe_restrict'}:
+            r3.violation('match_selectors swap missing', mmod.where(ms),
+                         f'match_selectors no longer swaps namespaces and iframe_restrict in its own activation (found {sorted(attrs)})')
     from ..boolpaths import BoolDomain
     from ..pathwalk import Walker
 
